@@ -34,7 +34,10 @@ EXHAUSTIVE = {"quick": False, "thorough": False}
 WIP = True
 
 def plan(tier, seed, searching):
-    return [dict(hargs=["--seed", str(seed), "--tier", tier, "--scale", "8" if searching else "1"])]
+    # a solver that never returns (seen with mutants) must become a CRASH verdict naming the open
+    # case, not a stuck check: bound the harness run
+    return [dict(hargs=["--seed", str(seed), "--tier", tier, "--scale", "8" if searching else "1"],
+                 timeout=(900 if tier == "thorough" else 300) * (4 if searching else 1))]
 
 def only_args(hargs, k):
     return hargs + ["--only", str(k)]
